@@ -527,17 +527,60 @@ def xval_json(v):
     return {"other": str(v)}
 
 
+_SANITIZER = []
+
+
+def _find_sanitizer():
+    """the function of rpft.parsers.sheets that turns the cells of a tablib Dataset into text (today the method
+    XLSXSheetReader._sanitize): found by what it DOES on a probe table, whatever it is called and wherever it lives"""
+    if _SANITIZER:
+        return _SANITIZER[0]
+    import inspect
+
+    import tablib
+    from rpft.parsers import sheets as M
+
+    def probe(f):
+        ds = tablib.Dataset()
+        ds.headers = ["a", "b"]
+        ds.append([1, None])
+        try:
+            t = f(ds)
+            return isinstance(t, tablib.Dataset) and list(t.headers) == ["a", "b"] and [list(t[i]) for i in range(t.height)] == [["1", ""]]
+        except Exception:  # noqa: BLE001
+            return False
+
+    cands = []
+    x = getattr(M, "XLSXSheetReader", None)
+    if x is not None and hasattr(x, "_sanitize"):
+        cands.append(lambda ds, x=x: x._sanitize(None, ds))
+    for name, obj in sorted(vars(M).items()):
+        if inspect.isfunction(obj) and obj.__module__ == M.__name__:
+            cands.append(obj)
+        elif inspect.isclass(obj) and obj.__module__ == M.__name__:
+            for mn, meth in sorted(vars(obj).items()):
+                fn = meth.__func__ if isinstance(meth, (staticmethod, classmethod)) else meth
+                if inspect.isfunction(fn) and not mn.startswith("__"):
+                    cands.append(lambda ds, fn=fn: fn(None, ds))
+                    cands.append(lambda ds, fn=fn: fn(ds))
+    found = next((f for f in cands if probe(f)), None)
+    _SANITIZER.append(found)
+    return found
+
+
 def real_sanitize(g):
     import tablib
-    from rpft.parsers.sheets import XLSXSheetReader
 
+    san = _find_sanitizer()
+    if san is None:
+        return {"__err__": "sanitizerNotFound"}
     ds = tablib.Dataset()
     if g["headers"] is not None:
         ds.headers = g["headers"]
     for r in g["rows"]:
         ds.append(r)
     try:
-        t = XLSXSheetReader._sanitize(None, ds)
+        t = san(ds)
     except TypeError:
         return {"__err__": "noHeaders"}
     except IndexError:
